@@ -68,6 +68,23 @@ func buildC05FuncCases() []*Expr {
 			}
 		}
 	}
+	// regular expressions on strings
+	for _, rs := range recvs {
+		for _, pat := range regexPatterns {
+			out = append(out, CallE(LitS(rs), "MatchString", TBool, reflect.Bool, LitS(pat)))
+		}
+	}
+	// time predicates: equal instants, one second apart, either order
+	mk := func(sec int64) *Expr {
+		return CallE(nil, "MakeTime", TTime, reflect.Struct, LitI(2021), LitI(11), LitI(30), LitI(23), LitI(58), LitI(sec))
+	}
+	for _, fn := range []string{"IsTimeBefore", "IsTimeAfter"} {
+		for _, p := range [][2]int64{{7, 7}, {7, 8}, {8, 7}, {0, 0}, {0, 59}} {
+			out = append(out, CallE(nil, fn, TBool, reflect.Bool, mk(p[0]), mk(p[1])))
+		}
+		out = append(out, CallE(nil, fn, TBool, reflect.Bool, VarE(P("F.Tm"), TTime, reflect.Struct), VarE(P("F.Tm"), TTime, reflect.Struct)))
+		out = append(out, CallE(nil, fn, TBool, reflect.Bool, VarE(P("F.Tm"), TTime, reflect.Struct), VarE(P("F.Tm2"), TTime, reflect.Struct)))
+	}
 	// time accessors on a constructed time
 	for _, fn := range []string{"GetTimeYear", "GetTimeMonth", "GetTimeDay", "GetTimeHour", "GetTimeMinute", "GetTimeSecond"} {
 		out = append(out, CallE(nil, fn, TInt, reflect.Int, CallE(nil, "MakeTime", TTime, reflect.Struct, LitI(2021), LitI(11), LitI(30), LitI(23), LitI(58), LitI(7))))
